@@ -85,8 +85,9 @@ def r01_1_dispatch_totality(repo: Repo, rep: Report):
         if i not in per_arm:
             rep.bad("R01.1", m, t, f"arm `{src(t)[:60]}` is selected by no opcode", "dead arm: shadowed by an earlier test or bound to a wrong constant")
     last = arms[-1][1]
-    ok = any(isinstance(s, ast.Raise) and "HalmosException" in src(s) for s in last)
-    rep.check("R01.1", ok, m, last[0], "else: raise HalmosException('Unsupported opcode ...')", "unknown opcode must stop the path with an internal error")
+    all_raises = [r for s in last for r in ast.walk(s) if isinstance(r, ast.Raise)]
+    ok = bool(all_raises) and all(r.exc is not None and "HalmosException" in src(r.exc) for r in all_raises) and isinstance(last[-1], ast.Raise)
+    rep.check("R01.1", ok, m, last[0], f"else: every exit is `raise HalmosException('Unsupported opcode ...')` ({len(all_raises)} raise site(s))", "unknown opcode must stop the path with an internal error (not an EVM-level revert, which reports an execution the EVM does not have for valid-but-unimplemented opcodes)")
     # the dispatch variable is the current instruction's opcode, the state is the current state's stack
     binds = {k: [src(v) for v in find_assign(run, k)] for k in ("insn", "opcode", "state")}
     ok = binds == {"insn": ["ex.insn"], "opcode": ["insn.opcode"], "state": ["ex.st"]}
